@@ -2,9 +2,13 @@ package agreement
 
 // C06 — Vote counting emits exactly one threshold per step, for the right value.
 //
-// Engine E-SEQ (explicit-state BFS over operation sequences) on the REAL voteTracker,
-// driven through a real stepRouter (so the checkedListener + voteTrackerContract wrapper
-// of production is in place) against a plain tally reference.
+// Engine E-SEQ (explicit-state BFS over operation sequences), two families against one
+// plain tally reference:
+//   family 1 (this file): the REAL voteTracker, driven through a real stepRouter (so the
+//     checkedListener + voteTrackerContract wrapper of production is in place);
+//   family 2 (verif_c06_aggregator_test.go): the REAL voteAggregator behind the real router
+//     chain, fed with individual voteVerified events AND bundleVerified events (every
+//     verifying bundle with <= 1 equivocation pair over the sender/value universe).
 //
 // Alphabet (12 ops): voteAccepted(sender, value), senders {a,b,c,d}, values {x,y,z}.
 //   The votes are REAL votes (makeVote + unauthenticatedVote.verify: VRF credential,
@@ -59,6 +63,11 @@ package agreement
 //      emitted again)                                          -> C06:panic (contract "emitted twice")
 //   7. voteTracker.go: the equivocator's weight is not subtracted from its first value
 //      (own)                                                   -> C06:panic (makeBundle: not enough votes) / C06:count
+//   8. seeded /verif/seeded/C06-B: vote.go equivocationVote.v1() returns Sigs[0] (only
+//      visible when pairs arrive inside a bundle)              -> family 2, C06:bundle-vote-content
+//      (the emitted bundle fails the real unauthenticatedBundle.verify)
+//   9. voteAggregator.go: stop replaying a bundle at the first threshold -> family 2, C06:count
+//  10. voteAggregator.go: second half of a pair replayed as v0() again -> family 2, C06:missing-threshold
 
 import (
 	"context"
@@ -613,7 +622,7 @@ func TestVerif_C06(t *testing.T) {
 		}
 	}
 	r.Set("distinct_bundles_verified_with_real_signatures", bundles)
-	cov.Rule = fmt.Sprintf("BFS over all sequences (length <= %d) of voteAccepted(sender in a..d, value in x,y,z) incl. duplicates, equivocations and votes of known equivocators, on the real voteTracker behind a real stepRouter/contract, for weights (1,1,2,2; thr 4) and (1,1,1,1; thr 3) (thorough: also 5 senders 1,1,1,2,2; thr 5) x steps soft, cert, next; real signed votes; states merged by the complete tracker+contract+reference state; sequences leaving the honest-majority assumption are pruned by the reference tally", depth)
+	cov.Rule = fmt.Sprintf("BFS over all sequences (length <= %d) of voteAccepted(sender in a..d, value in x,y,z) incl. duplicates, equivocations and votes of known equivocators, on the real voteTracker behind a real stepRouter/contract, for weights (1,1,2,2; thr 4) and (1,1,1,1; thr 3) (thorough: also 5 senders 1,1,1,2,2; thr 5) x steps soft, cert, next; real signed votes; states merged by the complete tracker+contract+reference state; sequences leaving the honest-majority assumption are pruned by the reference tally. Family 2: BFS over all sequences of <= %d events of voteVerified(sender, value) and bundleVerified(every verifying bundle with <= 1 equivocation pair) on the real voteAggregator behind the real router chain, same reference and oracle", depth, ve.Pick(7, 9))
 	r.Assume("sequences after which the equivocators alone reach the threshold or two values both reach it are outside the protocol assumption (code Panicf's by design) and are not explored")
 	r.Assume("private consensus version with committee size == total online stake, so credential weight == stake for every (round, period, step); checked for every vote used")
 	r.Assume("one-time signature / VRF primitives (libsodium) are trusted")
